@@ -310,6 +310,14 @@ func (c *oCache) TryRemove(id string) (ok bool, err error) {
 		c.mu.Unlock()
 		return false, ErrNotExists
 	}
+	select {
+	case <-e.load:
+	default:
+		// still loading: e.value is not set yet and the entry is in use by its
+		// loader, so it cannot be closed now - same verdict as a busy object
+		c.mu.Unlock()
+		return false, nil
+	}
 
 	c.mu.Unlock()
 
